@@ -8,6 +8,10 @@
 2. Cases: the same space (complete, or a seeded sample of it) is executed by the real force_align / align_text.
 3. Conformance: every recorded execution is judged by TLC (spec/ForcedAlign_Trace.tla) with the brute-force oracle: any optimal
    valid alignment and any most-confident frame is accepted.
+4. History and scale: one process aligns a session of long lines one after another (same length, repeats at different places, one
+   frame too few / just enough / more; > 64 and > 128 labels, > 255 symbols, > 1024 frames; failing calls in between; the caller's
+   list and matrix objects re-used).  Each call is a kind = "scale" trace judged by TLC with the Viterbi recursion of the design
+   module (proved equal to the brute force on the bounded shapes) evaluated on the recorded matrix.
 """
 import itertools
 import json
@@ -132,7 +136,7 @@ def _run_case(case):
             m = (m * 2 + 16777216.0).astype(np.float32)
         elif variant == 2 and INF not in vals:
             m = m.astype(np.int64)
-    rec = {"cm": [list(vals[i * nc:(i + 1) * nc]) for i in range(t)], "labels": list(labels), "blank": blank,
+    rec = {"kind": "case", "cm": [list(vals[i * nc:(i + 1) * nc]) for i in range(t)], "labels": list(labels), "blank": blank,
            "outcome": "ok", "path": [], "seq": [], "pos": []}
     outs = []
     for what in ("path", "seq", "pos"):
@@ -173,6 +177,196 @@ def execute(c, cases):
     global _SHAPE
     _SHAPE = {"T": c["T"], "C": c["C"], "unit": c.get("unit", "int")}
     return pmap(_run_case, cases, procs=6)
+
+
+# ------------------------------------------------------------------------------------------------ scale / history session
+# One process aligns many LONG lines one after another (what an OCR run does with the lines of a page): lines of the same length that
+# differ only in where labels repeat (early, in the middle, beyond the 64th / 128th label, the last two), each with one frame too few
+# (must fail), exactly enough frames, a few more and many more; more than 255 symbols; more than 1024 frames; float64 and float32
+# matrices; a call that fails on the blank among the labels and a call with a label that is no symbol of the matrix (not judged) in
+# between; the label list and the matrix buffer are the caller's long-lived objects, edited in place between the calls.  The costs are small integers (float sums
+# exact).  Nothing is decided here: every call becomes a kind = "scale" trace, judged by TLC (ForcedAlign_Trace, SJudge) with the
+# Viterbi recursion of the design module run on the recorded matrix.
+SCALE_CFG = cfg(3, 3, 3, {0, 1}, {2})        # constants of the bounded shapes; a scale trace carries its own shape
+
+
+def _needed(labels):
+    return len(labels) + sum(1 for a, b in zip(labels, labels[1:]) if a == b)
+
+
+def _line(rng, n, syms):
+    """n labels out of syms without immediate repeats"""
+    out = []
+    while len(out) < n:
+        x = rng.choice(syms)
+        if not out or out[-1] != x:
+            out.append(x)
+    return out
+
+
+def _with_repeats(base, places):
+    out = list(base)
+    for p in sorted(places):
+        out[p + 1] = out[p]
+    return out
+
+
+def scale_session(seed, tier):
+    """the calls of the session, in order: dicts {"T", "C", "blank", "labels", "mseed", "style", "dtype", "group"} (all derived from the
+    seed, so that a replay file only needs seed + tier + index)"""
+    rng = random.Random(seed * 7919 + 17)
+    calls = []
+
+    def group(name, n, nsym, blank, variants, frames, first_plain, dtype):
+        syms = [x for x in range(nsym) if x != blank]
+        base = _line(rng, n, syms)
+        lines = [_with_repeats(base, v) for v in variants]
+        if not first_plain:
+            lines.reverse()
+        for li, lab in enumerate(lines):
+            need = _needed(lab)
+            for fr in frames:
+                t = need + fr if fr < 50 else fr * n // 10
+                calls.append({"group": name, "T": t, "C": nsym, "blank": blank, "labels": list(lab), "mseed": rng.randrange(1 << 30),
+                              "style": ["peaked", "flat"][(li + len(calls)) % 2], "dtype": dtype})
+
+    # more than 64 labels; the plain line first, then lines that differ from it only in where two equal labels meet
+    group("L72", 72, 90, 89, [(), (70,), (3,), (40, 66), (3, 70)], [-1, 0, 1, 21], True, "float64")
+    calls.append({"group": "blank-among-labels", "T": 80, "C": 90, "blank": 5, "labels": [1, 2, 5, 7] * 18, "mseed": 1, "style": "flat",
+                  "dtype": "float64"})
+    calls.append({"group": "unusable", "T": 80, "C": 90, "blank": 89, "labels": [1, 2, 3] * 24, "mseed": 2, "style": "flat",
+                  "dtype": "float64", "unjudged": True})
+    # ... and in the opposite order: the lines with equal neighbours first, the plain line of that length last
+    group("L67", 67, 5, 0, [(), (65,), (64,), (1, 30)], [-1, 0, 2], False, "float32")
+    # more than 127 labels (more than 255 HMM states), more than 255 symbols, the blank in the middle of the symbol range
+    group("L130", 130, 300, 140, [(), (128,), (100,)], [-1, 0, 3], True, "float32")
+    # more than 1024 frames for a short line
+    group("T1100", 9, 4, 3, [(), (7,)], [0, 1230], True, "float64")
+    if tier != "quick":
+        group("L260", 260, 600, 0, [(), (258,), (3,), (200, 257)], [-1, 0, 5, 13], False, "float32")
+        group("L72b", 72, 90, 0, [(68,), (), (69,), (5,)], [-1, 0, 1, 15], True, "float32")
+        group("T2100", 20, 6, 2, [(), (18,), (1,)], [0, 1050], True, "float32")
+    return calls
+
+
+def _scale_matrix(call):
+    """T x C integer costs (float sums exact); "peaked": the network is fairly sure about the characters one after another and dislikes
+    blanks, costs from a wide range (the optimal alignment is mostly unique, the frames of a character differ in confidence); "flat":
+    costs from a small range (many ties).  A few +inf cells in every third matrix."""
+    rng = np.random.RandomState(call["mseed"])
+    t, nc, lab = call["T"], call["C"], call["labels"]
+    if call["style"] == "flat":
+        m = rng.randint(0, 6, size=(t, nc))
+    else:
+        m = rng.randint(800, 2500, size=(t, nc))
+        step = t / float(len(lab))
+        for k, x in enumerate(lab):
+            lo, hi = int(k * step), max(int(k * step) + 1, int((k + 1) * step))
+            m[lo:hi, x] = rng.randint(0, 400, size=hi - lo)
+        m[:, call["blank"]] = rng.randint(600, 1200, size=t)
+        m[m == INF] = INF - 1                     # 999 is the +inf of the trace format
+    m = m.astype(np.int64)
+    if call["mseed"] % 3 == 0:
+        for k in range(max(2, t // 40)):          # anywhere, or where the alignment would like to pass (a label or the blank)
+            m[rng.randint(0, t), rng.randint(0, nc) if k % 2 else (lab + [call["blank"]])[rng.randint(0, len(lab) + 1)]] = INF
+    return m
+
+
+def run_session(calls):
+    """executes the calls in order in THIS process; returns one trace per judged call"""
+    from pero_ocr.core.force_alignment import force_align, align_text
+    traces = []
+    labels_obj = []                                             # the caller's list, edited in place
+    buffers = {}                                                # the caller's matrix buffers (one per element type and width)
+    for idx, call in enumerate(calls):
+        ints = _scale_matrix(call)
+        t, nc = ints.shape
+        key = (call["dtype"], nc)
+        if key not in buffers or buffers[key].shape[0] < t:
+            buffers[key] = np.zeros((max(t, 2 * len(call["labels"]) + 40), nc), dtype=call["dtype"])
+        m = buffers[key][:t]
+        m[...] = ints
+        m[ints == INF] = np.inf
+        labels_obj[:] = call["labels"]
+        if call.get("unjudged"):
+            # outside the scope of the statement (a label that is not a symbol of the matrix): whatever happens here is not judged,
+            # but the calls after it are
+            try:
+                force_align(m, labels_obj[:-1] + [nc + 3], call["blank"])
+            except Exception:
+                pass
+            continue
+        rec = {"kind": "scale", "index": idx, "group": call["group"], "cm": [_ints(r) for r in ints], "labels": list(call["labels"]),
+               "blank": call["blank"], "outcome": "ok", "path": [], "seq": [], "pos": [], "seq_outcome": "skipped"}
+        outs = []
+        for what in ("path", "pos"):
+            try:
+                if what == "path":
+                    rec["path"] = _ints(force_align(m, labels_obj, call["blank"]))
+                else:
+                    rec["pos"] = [int(x) + 1 for x in align_text(m, np.array(labels_obj), call["blank"])]
+                outs.append("ok")
+            except ValueError:
+                outs.append("error")
+            except Exception as ex:   # part of the observation
+                outs.append("exception:" + type(ex).__name__)
+        rec["outcome"] = outs[0] if outs[0] == outs[1] else "inconsistent:" + "/".join(outs)
+        if rec["outcome"] != "ok":
+            rec["path"], rec["pos"] = [], []
+        traces.append(rec)
+    return traces
+
+
+def _short(xs):
+    return str(xs) if len(xs) <= 24 else "%s ... %s (%d values)" % (str(xs[:10])[:-1], str(xs[-8:])[1:], len(xs))
+
+
+def judge_scale(ctx, seed, tier, traces):
+    consts = trace_constants(SCALE_CFG)
+    # the JVMs get contiguous slices: deal the calls out so that every slice holds a similar amount of work (frames x HMM states)
+    shards = min(4, len(traces))
+    by_cost = sorted(range(len(traces)), key=lambda i: -len(traces[i]["cm"]) * (2 * len(traces[i]["labels"]) + 1))
+    per = -(-len(traces) // shards)
+    order = sorted(range(len(traces)), key=lambda k: (k % shards) * per + k // shards)
+    order = [by_cost[k] for k in order]
+    acc, rej = ctx.validate("ForcedAlign_Trace", [traces[i] for i in order], constants=consts, shards=shards, jvm_mem="2g",
+                            label="ForcedAlign_Trace scale / history session (%d calls)" % len(traces))
+    rej = sorted((order[i], clause) for i, clause in rej)
+    for tr in traces:
+        ctx.count(1, ("scale", tr["group"], tr["index"]) if tr["outcome"] == "ok" else None)
+    for idx, clause in rej:
+        tr = traces[idx]
+        ctx.violation({"kind": "scale", "seed": seed, "tier": tier, "index": tr["index"], "clause": clause},
+                      "scale:" + SIGS.get(clause, "clause%d" % clause),
+                      "%s; call %d of a session of long lines aligned one after another in one process (group %s): T=%d C=%d blank=%d, "
+                      "%d labels=%s (immediate repeats after label %s) -> outcome=%s path=%s pos=%s" % (
+                          CLAUSES.get(clause, "?"), tr["index"], tr["group"], len(tr["cm"]), len(tr["cm"][0]), tr["blank"],
+                          len(tr["labels"]), _short(tr["labels"]), [k + 1 for k in range(len(tr["labels"]) - 1) if tr["labels"][k] == tr["labels"][k + 1]],
+                          tr["outcome"], _short(tr["path"]), _short(tr["pos"])))
+    return acc, rej
+
+
+def scale_part(ctx, seed, tier, selftest=True):
+    # in this very process: the session starts from whatever module state warm() and the hand-made self-test cases left behind
+    traces = run_session(scale_session(seed, tier))
+    acc, rej = judge_scale(ctx, seed, tier, traces)
+    if selftest and not rej:
+        # a recorded alignment that is valid but NOT of minimal cost must be rejected: the last frame of a character that holds several
+        # frames is given to the blank instead (still collapses to the labels) and the blank is made to cost one more there
+        def movable(tr):
+            p, b = tr["path"], tr["blank"]
+            return [f for f in range(1, len(p)) if p[f] == p[f - 1] != b and (f == len(p) - 1 or p[f + 1] != p[f])
+                    and tr["cm"][f][p[f]] not in (INF - 1, INF)]
+        good = next((tr for tr in traces if tr["outcome"] == "ok" and len(tr["cm"]) * len(tr["cm"][0]) < 12000 and movable(tr)), None)
+        if good is not None:
+            def corrupt(tr):
+                f = movable(tr)[0]
+                tr["cm"][f][tr["blank"]] = tr["cm"][f][tr["path"][f]] + 1
+                tr["path"][f] = tr["blank"]
+                return tr
+            ctx.selftest_corrupt("ForcedAlign_Trace", good, corrupt, constants=trace_constants(SCALE_CFG))
+    ctx.notes["scale_session_calls"] = len(traces)
+    return rej
 
 
 def trace_constants(c, seq_clause=False):
@@ -249,7 +443,8 @@ def selftests(ctx, c, traces):
 def run(ctx):
     ctx.rule = ("every (cost matrix over the listed cost values incl. +inf, label string of length 1..MaxL over all symbols incl. the "
                 "blank, blank index) of the bounded shapes = the initial states of the TLC run; complete for the small shapes, seeded "
-                "sample above the cap; non-trivial = alignment found and more frames than labels (several valid alignments compete)")
+                "sample above the cap; non-trivial = alignment found and more frames than labels (several valid alignments compete); plus "
+                "one session of 40-100 calls on long lines in one process (9-260 labels, 4-600 symbols, up to 2100 frames)")
     ctx.assume("cost values are small integers or +inf, so float sums in the real code are exact and cost ties are exact ties",
                "T <= 6 frames, at most 4 symbols, labels up to length 4",
                "when every valid alignment has infinite cost both 'failure' and 'an infinite-cost valid path' are accepted (the code fails)")
@@ -280,6 +475,10 @@ def run(ctx):
         if not done_self and not rej and c["T"] == 3:
             selftests(ctx, c, traces)
             done_self = True
+    # history and scale: one process, many long lines one after another
+    ctx.assume("scale / history session: integer costs 0..2499 or +inf; 9-130 labels (thorough: up to 260), up to 300 symbols (600), up to "
+               "1107 frames (2100); the minimum is the Viterbi recursion of the design module evaluated by TLC on the recorded matrix")
+    scale_part(ctx, ctx.seed, ctx.tier)
     ctx.notes["explanation"] = ("TLC exhaustive on ForcedAlign per config (invariants %s; ColumnExact on the small shapes); every sampled "
                                 "initial state executed by pero_ocr.core.force_alignment.force_align (both return modes) and align_text; "
                                 "each execution judged by TLC in ForcedAlign_Trace against the brute force over all C^T labellings "
@@ -288,6 +487,10 @@ def run(ctx):
 
 def replay(ctx, case):
     warm()
+    if case.get("kind") == "scale":
+        # the whole session is executed again in one process (the calls before the rejected one are part of the case) and judged again
+        scale_part(ctx, case["seed"], case["tier"], selftest=False)
+        return
     c = case["cfg"]
     tr = case["trace"]
     vals = tuple(x for row in tr["cm"] for x in row)
